@@ -7,6 +7,7 @@ from concurrent.futures import ThreadPoolExecutor
 HERE = os.path.dirname(os.path.dirname(os.path.abspath(__file__)))
 REPO = os.environ.get("VERIF_REPO", "/repo")
 props = [c["property_id"] for c in json.load(open(os.path.join(HERE, "MANIFEST.json")))["checks"]]
+props = sorted(set(props + [p for p in os.environ.get("VERIF_EXTRA_PROPS", "").split(",") if p]))
 
 def evaluate(patch):
     d = tempfile.mkdtemp(prefix="seedeval_", dir="/tmp")
